@@ -88,6 +88,13 @@ REF_FCN REF_STATUS ref_mpi_create_from_comm(REF_MPI *ref_mpi_ptr,
   ref_mpi->timing = 0;
   /* just below 1MB threshold to prevent slowdown with MPT 2.23-2.25 */
   ref_mpi->reduce_byte_limit = 1000000;
+#ifdef NASA_REFINE_VERIF
+  /* verification knobs: select the native all-to-all, shrink the reduce chunks */
+  if (NULL != getenv("REF_VERIF_NATIVE_ALLTOALLV"))
+    ref_mpi->native_alltoallv = REF_TRUE;
+  if (NULL != getenv("REF_VERIF_REDUCE_BYTE_LIMIT"))
+    ref_mpi->reduce_byte_limit = atoi(getenv("REF_VERIF_REDUCE_BYTE_LIMIT"));
+#endif
 
 #ifdef HAVE_MPI
   {
